@@ -247,7 +247,7 @@ func c03SelfFeed(p *Program, r *Report) {
 		// dominated by an edge that separates the root: parent != nil
 		sep := map[edge]bool{}
 		for _, ef := range p.edgeFacts(g) {
-			if ef.Field.Name() == "parent" && fieldVar(lc.Ctx, "parent") == ef.Field && ef.Fact.IsNil && ef.Fact.Op == token.NEQ {
+			if ef.Field == lc.ParentF && ef.Fact.IsNil && ef.Fact.Op == token.NEQ {
 				sep[ef.E] = true
 			}
 		}
@@ -455,7 +455,7 @@ func c03CacheSound(p *Program, r *Report) {
 	if lc == nil {
 		return
 	}
-	refF := fieldVar(lc.Ctx, "ref")
+	refF := lc.RefF
 	if refF == nil {
 		r.Unresolved("context ref field")
 		return
